@@ -815,12 +815,23 @@ func checkRunnerLiterals(c *Check) {
 			c.Undecided("O10/callers", w.rel+"."+w.fn, "-", "function not found")
 			continue
 		}
+		// the literal is built in the function itself or in a helper of the package it calls (a constructor split off)
 		stores := map[string]ssa.Value{}
-		for _, b := range fn.Blocks {
-			for _, in := range b.Instrs {
-				if st, ok := in.(*ssa.Store); ok {
-					if fa, ok := st.Addr.(*ssa.FieldAddr); ok && strings.HasSuffix(derefType(fa.X.Type()).String(), "forkexec.Runner") {
-						stores[fieldName(fa.X.Type(), fa.Field)] = st.Val
+		scope := []*ssa.Function{fn}
+		for _, ci := range callInstrs(fn) {
+			if _, callee := calleeOf(ci); callee != nil && callee.Pkg == fn.Pkg && len(callee.Blocks) > 0 && callee != fn {
+				scope = append(scope, callee)
+			}
+		}
+		for _, sf := range scope {
+			for _, b := range sf.Blocks {
+				for _, in := range b.Instrs {
+					if st, ok := in.(*ssa.Store); ok {
+						if fa, ok := st.Addr.(*ssa.FieldAddr); ok && strings.HasSuffix(derefType(fa.X.Type()).String(), "forkexec.Runner") {
+							if _, have := stores[fieldName(fa.X.Type(), fa.Field)]; !have || sf == fn {
+								stores[fieldName(fa.X.Type(), fa.Field)] = st.Val
+							}
+						}
 					}
 				}
 			}
